@@ -76,7 +76,7 @@ Proof. intros H. unfold ToSlice. destruct (Z.eqb_spec (kind_of arg) K_Slice); [c
 Lemma wf_kind_slice arg : wf arg = true -> kind_of arg = K_Slice -> exists t fl el, arg = GSlice t fl el.
 Proof.
   intros Hw Hk. destruct arg; cbn [kind_of] in Hk; try (unfold K_Slice, K_Invalid, K_String, K_Array, K_Ptr in Hk; discriminate).
-  - cbn [wf] in Hw. apply andb_true_iff in Hw as [H1 H2]. apply Z.leb_le in H1, H2. unfold K_Slice in Hk. lia.
+  - cbn [wf] in Hw. unfold K_Slice in Hk. subst k. discriminate.
   - eauto.
   - cbn [wf] in Hw. unfold K_Slice, K_Chan, K_Func, K_Map, K_Struct in *. subst tag. discriminate.
 Qed.
